@@ -47,6 +47,9 @@ def snapshot(prefix="pyairtouch"):
             containers.append((x, dict(x)))
             for v in list(x.values()):
                 walk(v, depth + 1)
+        elif isinstance(x, bytearray):
+            seen.add(id(x))
+            containers.append((x, bytes(x)))
         elif isinstance(x, (list, set)):
             seen.add(id(x))
             containers.append((x, type(x)(x) if type(x) in (list, set) else list(x)))
@@ -104,6 +107,11 @@ def restore():
                 if len(c) != len(copy) or any(k not in c or not _same(c[k], v) for k, v in copy.items()):
                     dict.clear(c)
                     dict.update(c, copy)
+                    n += 1
+            elif isinstance(c, bytearray):
+                if bytes(c) != copy:
+                    c[:] = copy
+                    CHANGED.add("bytearray buffer (in place)")
                     n += 1
             elif isinstance(c, list):
                 if len(c) != len(copy) or any(not _same(a, b) for a, b in zip(c, copy)):
